@@ -1231,6 +1231,32 @@ _CATS = [
 ]
 
 
+_DBL_MAX = 1.7976931348623157e308
+_BOUNDS_MSG = re.compile(r"^(?:variable|constraint) \S+: solver bounds \((\S+),(\S+)\) expected \((\S+),(\S+)\)$")
+
+
+def check_lp(model, uv, uc):
+    """bcc.views.check_lp_reported, reading +-DBL_MAX as +-infinity.
+
+    GLPK has no separate representation of an infinite bound: glp_get_col_lb/ub *return* -+DBL_MAX for a missing
+    bound, optlang's GLPK-text round trip (Model.copy, pickle, deepcopy) therefore hands out variables with
+    ub=1.797e308, and a later `model.solver = ...` writes them back as a double-bounded column [lb, DBL_MAX].  GLPK treats
+    that column as unbounded above (an unbounded LP is still reported `unbounded`), so it is the same problem."""
+    from bcc import views
+    out = []
+    for msg in views.check_lp_reported(model, uv, uc):
+        mo = _BOUNDS_MSG.match(msg)
+        if mo:
+            vals = []
+            for x in mo.groups():
+                x = float(x)
+                vals.append(INF if x >= _DBL_MAX else -INF if x <= -_DBL_MAX else x)
+            if views._close(vals[0], vals[2]) and views._close(vals[1], vals[3]):
+                continue
+        out.append(msg)
+    return out
+
+
 def categorize(msg):
     for pat, cat in _CATS:
         if re.search(pat, msg):
@@ -1306,11 +1332,11 @@ def run_history(spec, solver, history, mode, stop_on_failure=True):
         out["checks"] += 1
         n0 = len(out["failures"])
         if mode == "C01":
-            msgs = views.check_lp_reported(S.model, S.uv, S.uc)
+            msgs = check_lp(S.model, S.uv, S.uc)
             if msgs:
                 fail(step_i, op, outcome, categorize(msgs[0]), "; ".join(msgs[:4]))
             for o in S.others:
-                msgs = views.check_lp_reported(o, S.uv, S.uc)
+                msgs = check_lp(o, S.uv, S.uc)
                 if msgs:
                     fail(step_i, op, outcome, "other-model-" + categorize(msgs[0]), "other model involved: " + "; ".join(msgs[:4]))
         else:
